@@ -621,6 +621,27 @@ def scale_sparse_clear(rng, kind):
     return lines
 
 
+def scale_counter_wrap(rng, kind, gaps):
+    """exactly m uses of other entries between two uses of one entry, for m around powers of two (a
+    narrow counter or stamp that wraps), each time followed by an eviction that shows who is where"""
+    c = _scale_cfg(rng, kind, 3, 6, ttl=100000, tick=100000)
+    lines = [cfg_line(c), "ins 1 1 3 100000", "ins 2 2 3 100000", "ins 3 3 3 100000"]
+    fresh = 4
+    for m in gaps:
+        lines.append("find 1 0")
+        for i in range(m):
+            lines.append("find %d 0" % (2 if i % 2 else 3) if i % 7 else "ins %d 5 3 100000" % (2 if i % 2 else 3))
+        lines.append("find 1 0")
+        lines.append("ins %d 9 3 100000" % fresh)          # new key into the full cache
+        lines.append("era %d" % fresh)
+        # restore the three residents (whoever was evicted comes back)
+        for k in (1, 2, 3):
+            lines.append("ins %d %d 3 100000" % (k, k))
+        fresh = 4 + (fresh - 3) % 3
+    lines.append("destroy")
+    return lines
+
+
 def scale_batch(rng, kinds, tier):
     """executions of the scale batch for the given kinds (a few per kind in the quick tier)"""
     out = []
@@ -630,6 +651,9 @@ def scale_batch(rng, kinds, tier):
             if kind in CACHE_KINDS:
                 out.append(scale_big_capacity(rng, kind, rng.choice([130, 140] if tier == "quick" else [130, 200, 260])))
             out.append(scale_hot_keys(rng, kind, 1400 if tier == "quick" else 3000))
+            if kind in CACHE_KINDS:
+                out.append(scale_counter_wrap(rng, kind, [255, 256, 257, 512] if tier == "quick" else
+                                              [127, 128, 255, 256, 257, 511, 512, 1024, 4096]))
             if kind in TTL_KINDS:
                 big = 270 if kind in ("utmap", "utset") else 140      # beyond any batching threshold up to 256
                 for both in (True, False):      # both waves expired / only the first one
